@@ -1572,17 +1572,18 @@ class PhonopyConfParser(ConfParser):
         if filename is not None:
             super().__init__(filename=filename)
             self.read_file()  # store .conf file setting in self._confs
-            self._parse_conf()  # self.parameters[key] = val
-            self._set_settings()  # self.parameters -> PhonopySettings
             confs.update(self._confs)
         if args is not None:
             # To invoke ConfParser.__init__() to flush variables.
             super().__init__(args=args)
             self._read_options()  # store options in self._confs
-            self._parse_conf()  # self.parameters[key] = val
-            self._set_settings()  # self.parameters -> PhonopySettings
             confs.update(self._confs)
+        # Settings of the conf file and of the options are merged (options win)
+        # before they are interpreted, since settings that depend on each other
+        # may come from different sources.
         self._confs = confs
+        self._parse_conf()  # self.parameters[key] = val
+        self._set_settings()  # self.parameters -> PhonopySettings
 
     def _read_options(self):
         ConfParser.read_options(self)  # store data in self._confs
